@@ -208,6 +208,14 @@ def handle (st : St) (args : List String) (impl : String) : St × Verdict :=
       | some ns => (st, cmpSpec (showNatList ns) impl)
       | none => (st, cmpSpec "err" impl)
     | _, _, _ => (st, .unknown)
+  -- `Proof::read` on a whole byte stream (edge-bits byte first): truncated, exact, over-long
+  | ["readstream", ps, hx] =>
+    match nat? ps, parseHex hx with
+    | some ps, some bs =>
+      match readProofStream ps bs with
+      | some (w, ns, r) => (st, cmpSpec s!"{w} {showNatList ns} {r}" impl)
+      | none => (st, cmpSpec "err" impl)
+    | _, _ => (st, .unknown)
   | ["diff", scale, hx] =>
     match nat? scale, parseHex hx with
     | some sc, some bs => (st, cmpSpec (toString (scaledDifficulty sc bs)) impl)
